@@ -15,6 +15,27 @@ Proof. discriminate. Qed.
 Global Opaque BUFSIZ LINEMAX NAME_SLACK.
 
 (* ---- the line buffer ---- *)
+Lemma list_set_ok : forall l k v, (k <= length l)%nat ->
+  exists l', list_set l k v = Some l' /\ (k + 1 <= length l')%nat /\ (length l <= length l')%nat /\ In v l' /\ l' <> [].
+Proof.
+  induction l as [|x r IH]; intros k v Hk.
+  - assert (k = 0)%nat as -> by (cbn in Hk; lia). cbn. eexists; split; [reflexivity|]. cbn. repeat split; auto; discriminate.
+  - destruct k as [|k'].
+    + cbn. eexists; split; [reflexivity|]. cbn. repeat split; auto; try lia; discriminate.
+    + cbn [list_set]. destruct (IH k' v) as (l' & E & A & B & C & D); [cbn in Hk; lia|].
+      rewrite E. cbn [option_map]. eexists; split; [reflexivity|]. cbn [length]. repeat split; try lia; [right; auto|discriminate].
+Qed.
+
+Lemma list_set_in : forall l k v l', list_set l k v = Some l' -> In v l' /\ l' <> [].
+Proof.
+  induction l as [|x r IH]; intros k v l' H.
+  - destruct k; [|discriminate]. cbn in H. inversion H; subst. split; [left; auto|discriminate].
+  - destruct k as [|k'].
+    + cbn in H. inversion H; subst. split; [left; auto|discriminate].
+    + cbn [list_set] in H. destruct (list_set r k' v) as [l0|] eqn:E; [|discriminate].
+      cbn in H. inversion H; subst. split; [right; eapply IH; eauto|discriminate].
+Qed.
+
 Lemma buf_set_ok buf i v :
   i < BUFSIZ -> (N.to_nat i <= length buf)%nat ->
   exists b', buf_set buf i v = Some b' /\ (N.to_nat i + 1 <= length b')%nat /\
@@ -22,26 +43,12 @@ Lemma buf_set_ok buf i v :
 Proof.
   intros Hi Hl. unfold buf_set.
   destruct (BUFSIZ <=? i) eqn:E; [apply N.leb_le in E; lia|].
-  destruct (N.to_nat i <? length buf)%nat eqn:E1.
-  - apply Nat.ltb_lt in E1. eexists; split; [reflexivity|].
-    rewrite app_length, firstn_length. cbn [length]. rewrite skipn_length.
-    repeat split; try lia.
-    + apply in_or_app. right. left. reflexivity.
-    + destruct (firstn (N.to_nat i) buf); discriminate.
-  - apply Nat.ltb_ge in E1. assert (N.to_nat i = length buf) as -> by lia.
-    rewrite Nat.eqb_refl. eexists; split; [reflexivity|].
-    rewrite app_length. cbn [length]. repeat split; try lia.
-    + apply in_or_app. right. left. reflexivity.
-    + destruct buf; discriminate.
+  apply list_set_ok. exact Hl.
 Qed.
 
 Lemma buf_set_in buf i v b' : buf_set buf i v = Some b' -> In v b' /\ b' <> [].
 Proof.
-  unfold buf_set. destruct (BUFSIZ <=? i); [discriminate|].
-  destruct (N.to_nat i <? length buf)%nat.
-  - intro H; inversion H; split; [apply in_or_app; right; left; reflexivity|destruct (firstn (N.to_nat i) buf); discriminate].
-  - destruct (N.to_nat i =? length buf)%nat; [|discriminate].
-    intro H; inversion H; split; [apply in_or_app; right; left; reflexivity|destruct buf; discriminate].
+  unfold buf_set. destruct (BUFSIZ <=? i); [discriminate|]. apply list_set_in.
 Qed.
 
 Lemma read_rest_ok : forall inp buf cp,
